@@ -7,7 +7,9 @@ import (
 	yaml "gopkg.in/yaml.v2"
 )
 
-const c10Kinds = 15
+const c10Kinds = 17
+
+type c10Flag bool
 
 // c10Value returns a value of the k-th truthiness class with an arbitrary payload,
 // and whether the statement calls it truthy (everything except nil and false).
@@ -42,6 +44,13 @@ func c10Value(k int) (any, bool) {
 		return map[string]any(nil), true
 	case 14:
 		return struct{ Tags []string }{}, true
+	case 15:
+		// false of a named boolean type is false
+		b := nd.Bool()
+		return c10Flag(b), b
+	case 16:
+		b := nd.Bool()
+		return c18Drop{c10Flag(b)}, b
 	default:
 		return nd.Uint8(), true
 	}
@@ -67,7 +76,11 @@ func VerifC10If() {
 	names := []string{"c1", "c2", "c3", "c4", "c5"}
 	marks := []string{"A", "B", "C", "D", "F"}
 	for i := 0; i < k; i++ {
-		v, truthy := c10Value(nd.Choice(c10Kinds))
+		kinds := c10Kinds
+		if i >= 2 && !nd.Thorough() {
+			kinds = 7 // quick tier: the third and later branches draw from the first seven classes
+		}
+		v, truthy := c10Value(nd.Choice(kinds))
 		b[names[i]] = v
 		mark := marks[i]
 		if nd.Choice(2) == 1 {
